@@ -397,7 +397,7 @@ class NodeScanner:
         self.nodes: List[int] = []
 
     def on_message_received(self, can_id: int):
-        service = can_id & 0x780
+        service = can_id & ~0x7F
         node_id = can_id & 0x7F
         if node_id not in self.nodes and node_id != 0 and service in self.SERVICES:
             self.nodes.append(node_id)
